@@ -22,11 +22,22 @@ def dominating_def(cfg: CFG, fn: ast.AST, name: str, use: ast.AST) -> Optional[a
     """Value of the closest plain assignment ``name = expr`` that dominates ``use``."""
     un = cfg.node_of(use)
     cands = []
+    values = {}
     for n in walk_no_nested(fn):
+        hit = None
         if isinstance(n, ast.Assign) and len(n.targets) == 1 and isinstance(n.targets[0], ast.Name) and n.targets[0].id == name:
+            hit = n.value
+        elif (isinstance(n, ast.Assign) and len(n.targets) == 1 and isinstance(n.targets[0], ast.Tuple) and isinstance(n.value, ast.Tuple)
+              and len(n.targets[0].elts) == len(n.value.elts)):
+            # a, b = (e1, e2): the element paired with the name
+            for t, v in zip(n.targets[0].elts, n.value.elts):
+                if isinstance(t, ast.Name) and t.id == name:
+                    hit = v
+        if hit is not None:
             dn = cfg.node_of(n)
             if dn is not None and un is not None and dn != un and cfg.dominates(dn, un):
                 cands.append((n, dn))
+                values[id(n)] = hit
     if not cands:
         return None
     # closest = dominated by all the others
@@ -49,7 +60,7 @@ def dominating_def(cfg: CFG, fn: ast.AST, name: str, use: ast.AST) -> Optional[a
                 if not cfg.dominates(dn, un) or cfg.dominates(best[1], dn):
                     if cfg.reachable(best[1], dn, avoiding={un}) and cfg.reachable(dn, un, avoiding={best[1]}):
                         return None
-    return best[0].value
+    return values[id(best[0])]
 
 
 # ---------------------------------------------------------------------------------------------
@@ -512,7 +523,7 @@ def check_measure_formula(ctx, rule: str):
         g = got.get(k)
         c = construct(fi, f"{k} = " + " * ".join(f"{a}^{e}" for a, e in w.items()))
         if g is None:
-            ctx.ob(rule, c, None if k in got else False, loc(fi), "formula not in monomial form" if k in got else "measure missing")
+            ctx.ob(rule, c, False, loc(fi), "the statistic is not chi2_contingency(xtab)[0] / the formula is not a monomial in (chi2, n, r-1): e.g. a hand-written chi-squared without scipy's continuity correction ranks 2-group candidates differently" if k in got else "measure missing")
         else:
             ctx.ob(rule, c, g == w, loc(fi), "" if g == w else f"found {({a: str(e) for a, e in g.items()})}")
     # n = number of observations of the very table whose groupings are measured
